@@ -155,6 +155,25 @@ CLAIMED = {
    "The check owns no scheduler: races that need an interleaving the Go scheduler does not produce in these runs are not excluded. Only top-level declaration order is permuted (column order inside a table is semantic).",
    "4/C20"),
 }
+# additions of the fifth seeded-change round, appended to the level text
+ROUND5 = {
+ "C03": "The HCL loop runs for the realm document and for the schema-scoped one (InspectSchema -> MarshalHCL -> EvalHCL -> SchemaDiff both ways).",
+ "C04": "The same graphs are also spread over two schemas with tables 2k and 2k+1 sharing a name (RealmDiff, schema-qualified statements, catalogue keyed by schema.table).",
+ "C06": "Every history step that leaves a tampered directory with a sum file is also read by one of ten other readers (migrate status / lint / diff, schema diff / apply / inspect; relative, ./relative and absolute URLs), which must refuse it with a checksum error.",
+ "C07": "Injection sites include the name of the first table (it lands in the comment line that opens the file) and directive-like names.",
+ "C08": "Delimiters include multi-byte ones.",
+ "C09": "The statement text carries a per-case number so that the recorded statement checksums vary.",
+ "C10": "Configurations with a file added below the last applied version and run with --exec-order non-linear (a crash inside it must be resumed).",
+ "C11": "Directories are also written with Windows line endings (file directives must still be read).",
+ "C12": "A completed file must carry no error (also when the failing tail was deleted); partial revisions without statement checksums must not crash the run.",
+ "C13": "Also: a second failing statement further down the same file, repaired one at a time; directories with Windows line endings; --dry-run --baseline on a non-clean database.",
+ "C14": "Dev databases also: a file holding only a table named libsql_<x> (residual finding: not refused; it is handed back untouched).",
+ "C15": "Default pools include long fractions, exponents, integers above 64 bits and strings that look like booleans, numbers or hex literals; MySQL checks carry the ENFORCED attribute both ways; realms of two schemas (every subset of the base tables copied, foreign keys pointing back into the first schema) are round-tripped with a direct comparison of foreign-key targets.",
+ "C16": "Spans include a second schema that differs by case only; span cases also run through the planners of drivers opened against MySQL 8 / 5.7 / MariaDB / TiDB; bare type names (mood[]) count as references; columns are retyped to enums and enum arrays.",
+ "C19": "Pattern grammar includes malformed globs: an error is demanded whenever the glob meets a resource no pattern removes (API, engine and CLI).",
+ "C20": "Unrelated work also includes a driver connected to another (mocked MySQL 5.7) server between repetitions; the same multi-file HCL document, with locals of one file building on a local of another, is evaluated 24 times and must give one outcome.",
+}
+
 PENDING_REASON = "check not built yet in this session (planned in DESIGN.md section 4; will be claimed once its quick check is green and sensitivity-tested)"
 
 def main():
@@ -185,6 +204,8 @@ def main():
         pid = p["id"]
         if pid in CLAIMED:
             cat, tech, text, note, ref = CLAIMED[pid]
+            if pid in ROUND5:
+                text = text + " Added after the fifth seeded-change round: " + ROUND5[pid]
             m["checks"].append({
               "property_id": pid,
               "quick_cmd": "./check %s quick" % pid,
